@@ -2,6 +2,7 @@ package main
 
 import (
 	"bufio"
+	"encoding/json"
 	"fmt"
 	"os"
 	"time"
@@ -33,6 +34,22 @@ func extraOp(out *bufio.Writer, inst **lmd.VerifInstance, op string, line opLine
 			errStr = err.Error()
 		}
 		emit(out, map[string]interface{}{"id": line.ID, "op": "session", "out": string(res), "timeout": timedOut, "err": errStr})
+
+		return true
+	case "redistribute":
+		var spec struct {
+			Online   []bool   `json:"online"`
+			Own      int      `json:"own"`
+			Backends []string `json:"backends"`
+			Previous []string `json:"previous"`
+		}
+		if err := json.Unmarshal([]byte(line.Text), &spec); err != nil {
+			emit(out, map[string]interface{}{"id": line.ID, "op": "redistribute", "error": err.Error()})
+
+			return true
+		}
+		nb, ours, panicked := lmd.VerifRedistribute(spec.Online, spec.Own, spec.Backends, spec.Previous)
+		emit(out, map[string]interface{}{"id": line.ID, "op": "redistribute", "node_backends": nb, "ours": ours, "panic": panicked})
 
 		return true
 	default:
